@@ -190,6 +190,22 @@ func Verif_C11_rows() {
 		var manyE []verifEmbedded
 		err = unmarshalRows(&manyE, &verifRows{cols: []string{"c1", "c2"}, rows: [][]verifCell{{{s: name}, {n: age}}}}, true)
 		verifAssert(err == ErrNotMatchDestination, "strict rows: fewer columns than flattened destination fields is an error")
+		// the same into a destination that already holds rows (a caller accumulating pages into one slice)
+		acc := []verifTagged{{Name: "kept", Age: 7}}
+		err = unmarshalRows(&acc, &verifRows{cols: []string{"name"}, rows: [][]verifCell{{{s: name}}, {{s: name}}}}, strict)
+		if strict {
+			verifAssert(err == ErrNotMatchDestination, "strict rows: fewer columns than destination fields is an error also when the destination slice already holds elements")
+			verifAssert(len(acc) == 1 && acc[0].Name == "kept" && acc[0].Age == 7, "strict rows: a rejected result adds no partially filled struct")
+			verifReach("strict-nonempty-destination")
+		} else {
+			verifAssert(err == nil && len(acc) == 3 && acc[0].Name == "kept" && acc[1].Name == name && acc[1].Age == 0, "partial rows are appended after the elements already there")
+		}
+		var accU []verifUntagged
+		accU = append(accU, verifUntagged{Name: "kept", Age: 7})
+		err = unmarshalRows(&accU, &verifRows{cols: []string{"c1"}, rows: [][]verifCell{{{s: name}}}}, strict)
+		if strict {
+			verifAssert(err == ErrNotMatchDestination && len(accU) == 1, "strict rows (positional): the same")
+		}
 		verifReach("rows")
 	}
 }
